@@ -50,6 +50,11 @@ GRAPHS = {
     "diamond": ({"main": (["f"], [], ["a", "b"]), "a": (["fa"], [], ["base"]), "b": (["fb"], [], ["base"]), "base": (["fbase"], ["gbase"], [])}, ["main"]),
     "two-roots-shared-import": ({"m1": (["f1"], [], ["lib"]), "m2": (["f2"], [], ["lib"]), "lib": (["h"], [], [])}, ["m1", "m2"]),
     "import-twice-in-chain": ({"main": (["f"], [], ["a", "c"]), "a": (["fa"], [], ["c"]), "c": (["fc"], [], [])}, ["main"]),
+    # module names are opaque keys: names that share a file stem, a prefix, or differ only in a suffix / directory are different modules
+    "names-sharing-a-stem": ({"main": (["f"], [], ["shapes/util", "colors/util"]), "shapes/util": (["area"], [], ["shapes/api"]), "colors/util": (["tint"], [], ["colors/api"]),
+                              "shapes/api": (["sapi"], [], []), "colors/api": (["capi"], ["gc"], [])}, ["main"]),
+    "names-with-common-affixes": ({"main": (["f"], [], ["light", "lights", "colors", "utils.v2"]), "light": (["l1"], [], []), "lights": (["l2"], [], []), "colors": (["c1"], [], ["utils"]),
+                                   "utils.v2": (["u2"], [], []), "utils": (["u1"], [], [])}, ["main"]),
 }
 
 
@@ -177,7 +182,7 @@ def c16_link(R):
     R.check("C16.loader.memory", L + "::MemoryModuleLoader.Load", ml.Load("x") is m, detail="MemoryModuleLoader must return the module stored under the name")
 
 
-@family("C16.meta", props=["C16"], functions=["nsl.passes.LowerToIR::LowerToIRVisitor.v_Module", "nsl.passes.ComputeTypes::ComputeTypeVisitor.v_Module", "nsl.passes.ComputeTypes::ComputeTypeVisitor.__RegisterFunction"],
+@family("C16.meta", props=["C16", "C03", "C10"], functions=["nsl.passes.LowerToIR::LowerToIRVisitor.v_Module", "nsl.passes.ComputeTypes::ComputeTypeVisitor.v_Module", "nsl.passes.ComputeTypes::ComputeTypeVisitor.__RegisterFunction"],
         assumptions=["the module loader of the typing pass is replaced by an in-memory loader (the file loader and pickle are trusted, see C17)"])
 def c16_meta(R):
     """Producer/consumer agreement on module metadata: what LowerToIR.v_Module writes (imports, exported signatures, types) is what
